@@ -10,7 +10,8 @@ import c11_translate  # noqa: E402
 ID = "C11"
 THEOREMS = ["C11_payload_ops", "C11_element_ops", "C11_ops_complete", "C11_python_cmp_swap",
             "C11_fiber_add", "C11_fiber_mul", "C11_fiber_add_scalar", "C11_fiber_mul_scalar",
-            "C11_inplace_agree", "C11_fiber_imul_pinned_refuted", "C11_model_meets_spec"]
+            "C11_inplace_agree", "C11_fiber_history", "C11_active_range_not_read",
+            "C11_fiber_imul_pinned_refuted", "C11_model_meets_spec"]
 COQ_IMPORTS = ("From FT Require Import Model.Base Model.Obs Model.C11PyOps Model.C11Fiber "
                "Gen.C11PayloadOps Gen.C11CoordPayloadOps Model.C11Check.")
 CHECK_VO = ["Model/C11Check.v"]
@@ -23,7 +24,9 @@ RULE = ("case = (a) one operator application: in-place flag x operator (+ - * / 
         "(ints, exactly representable floats), observation = kind, identity and value of the result and of "
         "both operands afterwards; (b) fiber arithmetic: +/* with a fiber or a scalar, value-returning, "
         "reflected and in-place form on the same operands, observation = stored (coord, value) lists of the "
-        "results and operands. distinct = distinct canonical JSON; non-trivial = operator case with a "
+        "results and operands; (c) the same on fibers built with an explicit active_range and after a first "
+        "in-place step a += c / a *= c (two-step history on one object; populate copies c's active range), "
+        "observation additionally = a after the first step and a.getActive(). distinct = distinct canonical JSON; non-trivial = operator case with a "
         "non-zero operand, fiber case with at least one stored element")
 TRUSTED = ["Coq 8.16.1 kernel (coqc; coqchk in the thorough tier); vm_compute used; native_compute not used",
            "Print Assumptions of every C11 theorem: Closed under the global context (no axioms)",
@@ -182,6 +185,42 @@ def gen_fib_case(rng, mul=None, withfiber=None):
     return {"t": "fib", "mul": bool(mul), "withfiber": bool(withfiber), "sa": sa, "a": a, "sb": sb, "b": b, "s": s}
 
 
+def gen_active(rng, shape, es):
+    """an explicit active range for a fiber: None, (0, shape) or a different (lo, hi)"""
+    n = shape if shape is not None else (es[-1][0] + 1 if es else 0)
+    r = rng.random()
+    if r < 0.3:
+        return None
+    if r < 0.4:
+        return [0, n]
+    lo = rng.randint(0, max(n, 1))
+    hi = rng.randint(lo, max(n, 1) + 2)
+    return [lo, hi]
+
+
+def gen_afib(rng, shape_hi=8, p_active=1.0):
+    sh, es = gen_zfib(rng, shape_hi)
+    act = gen_active(rng, sh, es) if rng.random() < p_active else None
+    return {"s": sh, "act": act, "es": es}
+
+
+def gen_hist_case(rng):
+    """fiber objects with explicit active ranges and two-step histories  a op= c ; then a (+|*) x"""
+    a = gen_afib(rng)
+    b = gen_afib(rng)
+    pre = None
+    if rng.random() < 0.7:
+        hi = a["s"] if a["s"] is not None else rng.randint(0, 9)
+        c = gen_afib(rng, shape_hi=max(0, min(8, hi)))
+        if a["s"] is not None:
+            c["es"] = [e for e in c["es"] if e[0] < a["s"]]
+            if c["s"] is not None and c["es"] and c["s"] <= c["es"][-1][0]:
+                c["s"] = c["es"][-1][0] + 1
+        pre = {"mul": rng.random() < 0.3, "c": c}
+    return {"t": "fibh", "pre": pre, "mul": rng.random() < 0.4, "withfiber": rng.random() < 0.3,
+            "a": a, "b": b, "s": rng.choice([0, 1, 2, -1, 3, -3, 7])}
+
+
 def streams(tier, rng):
     reps = 3 if tier == "quick" else 40
     ops = []
@@ -191,6 +230,8 @@ def streams(tier, rng):
     yield ("operators-all-combos", ops, False)
     n = 600 if tier == "quick" else 12000
     yield ("fibers-random", [gen_fib_case(rng) for _ in range(n)], False)
+    n = 600 if tier == "quick" else 12000
+    yield ("fibers-active-range-and-history", [gen_hist_case(rng) for _ in range(n)], False)
     if tier == "thorough":
         # exhaustive small scope: coordinates 0..2, per coordinate absent / explicit 0 / 1 / -1 ... both operands
         cases = []
@@ -209,6 +250,8 @@ def streams(tier, rng):
 def nontrivial(c):
     if c["t"] == "op":
         return c["x"][1] != 0 or c["y"][1] != 0
+    if c["t"] == "fibh":
+        return bool(c["a"]["es"]) or bool(c["b"]["es"]) or bool(c["pre"] and c["pre"]["c"]["es"])
     return bool(c["a"]) or bool(c["b"])
 
 
@@ -216,6 +259,21 @@ def describe(c):
     if c["t"] == "op":
         return {"kind": "op", "op": ("i" if c["inplace"] else "") + c["op"], "operands": c["kl"] + "-" + c["kr"],
                 "float": c["x"][0] == "f" or c["y"][0] == "f"}
+    if c["t"] == "fibh":
+        def last(es):
+            return es[-1][0] + 1 if es else 0
+        a = c["a"]
+        pre = c["pre"]
+        iadd = pre is not None and not pre["mul"]
+        sh = a["s"] if a["s"] is not None else max(last(a["es"]), last(pre["c"]["es"]) if iadd else 0)
+        if iadd:
+            cc = pre["c"]
+            act = cc["act"] or [0, cc["s"] if cc["s"] else last(cc["es"])]
+        else:
+            act = a["act"]
+        return {"kind": "fibh", "fop": ("mul" if c["mul"] else "add") + ("-fiber" if c["withfiber"] else "-scalar"),
+                "first_step": "none" if c["pre"] is None else ("imul" if c["pre"]["mul"] else "iadd"),
+                "active_differs_from_shape": act is not None and list(act) != [0, sh]}
     ca = {x for x, v in c["a"] if v != 0}
     cb = {x for x, v in c["b"] if v != 0}
     return {"kind": "fib", "fop": ("mul" if c["mul"] else "add") + ("-fiber" if c["withfiber"] else "-scalar"),
@@ -240,6 +298,12 @@ def coq_zfib(a):
 def case_to_coq(c):
     if c["t"] == "op":
         return "(COp %s %s %s %s %s %s)" % (L.b(c["inplace"]), c["op"], c["kl"], c["kr"], coq_val(c["x"]), coq_val(c["y"]))
+    if c["t"] == "fibh":
+        def af(f):
+            act = "None" if f["act"] is None else "(Some (%s, %s))" % (L.z(f["act"][0]), L.z(f["act"][1]))
+            return "(Build_afib %s %s %s)" % (L.opt(f["s"], L.z), act, coq_zfib(f["es"]))
+        pre = "None" if c["pre"] is None else "(Some (%s, %s))" % (L.b(c["pre"]["mul"]), af(c["pre"]["c"]))
+        return "(CFibH %s %s %s %s %s %s)" % (pre, L.b(c["mul"]), L.b(c["withfiber"]), af(c["a"]), af(c["b"]), L.z(c["s"]))
     return "(CFib %s %s %s %s %s %s %s)" % (L.b(c["mul"]), L.b(c["withfiber"]), L.opt(c["sa"], L.z), coq_zfib(c["a"]),
                                             L.opt(c["sb"], L.z), coq_zfib(c["b"]), L.z(c["s"]))
 
@@ -339,8 +403,51 @@ def run_fib(c):
     return [U.snap(r1), r2 if r2 is not None else [], U.snap(a2_id), a2 is a2_id, a_after, U.snap(b)]
 
 
+def run_fibh(c):
+    from fibertree import Fiber
+    import ftutil as U
+
+    def mk(f):
+        kw = {}
+        if f["s"] is not None:
+            kw["shape"] = f["s"]
+        if f["act"] is not None:
+            kw["active_range"] = tuple(f["act"])
+        return Fiber([x for x, _ in f["es"]], [v for _, v in f["es"]], **kw)
+
+    def history():
+        a = mk(c["a"])
+        if c["pre"] is not None:
+            cc = mk(c["pre"]["c"])
+            if c["pre"]["mul"]:
+                a *= cc
+            else:
+                a += cc
+        return a
+    a = history()
+    a1 = U.snap(a)
+    act = a.getActive()
+    b = mk(c["b"])
+    x = b if c["withfiber"] else c["s"]
+    r1 = (a * x) if c["mul"] else (a + x)
+    r2 = []
+    if not c["withfiber"]:
+        r2 = [U.snap((x * a) if c["mul"] else (x + a))]
+    a_after = U.snap(a)
+    a2 = history()
+    a2_id = a2
+    if c["mul"]:
+        a2 *= x
+    else:
+        a2 += x
+    return [a1, [int(act[0]), int(act[1])],
+            [U.snap(r1), r2, U.snap(a2_id), a2 is a2_id, a_after, U.snap(b)]]
+
+
 def run_impl(c):
-    return run_op(c) if c["t"] == "op" else run_fib(c)
+    if c["t"] == "op":
+        return run_op(c)
+    return run_fibh(c) if c["t"] == "fibh" else run_fib(c)
 
 
 def repro_py(c):
@@ -357,6 +464,24 @@ def shrinks(c):
                     d = copy.deepcopy(c)
                     d[k] = ["i", nv]
                     yield d
+        return
+    if c["t"] == "fibh":
+        fs = [("a", c["a"]), ("b", c["b"])] + ([("c", c["pre"]["c"])] if c["pre"] else [])
+        for name, f in fs:
+            for i in range(len(f["es"])):
+                d = copy.deepcopy(c)
+                g = d["pre"]["c"] if name == "c" else d[name]
+                del g["es"][i]
+                yield d
+            if f["act"] is not None:
+                d = copy.deepcopy(c)
+                g = d["pre"]["c"] if name == "c" else d[name]
+                g["act"] = None
+                yield d
+        if c["pre"] is not None:
+            d = copy.deepcopy(c)
+            d["pre"] = None
+            yield d
         return
     for k in ("a", "b"):
         for i in range(len(c[k])):
@@ -375,4 +500,5 @@ def search(disagreeing, rng, rnd):
     for combo in COMBOS:
         out.append(gen_op_case(rng, combo))
     out += [gen_fib_case(rng) for _ in range(300)]
+    out += [gen_hist_case(rng) for _ in range(300)]
     return out
